@@ -91,6 +91,24 @@ Theorem C08_notnew_agrees_with_plain_merge : forall d a r, upd_nn a d = Ok r -> 
 Proof. exact upd_nn_sound. Qed.
 Print Assumptions C08_notnew_agrees_with_plain_merge.
 
+(* ---- result-level rule for the GENERAL merge (extension round 7; C08_new_key_rejected is the rule of one loop iteration): whatever tags the
+   two mappings carry, every key of the merged mapping is a key of the older mapping or a key of the newer one whose WHOLE value allows new
+   paths - and that permission covers every node of the value, the value itself included: a !notnew anywhere in it (explicit or inherited
+   from a !notnew ancestor, C08_children_inherit) forbids the key. ---- *)
+From AY Require Import Proofs.Frame.
+Theorem C08_no_new_key_without_permission : forall als fuel p fs xs chs fo xo cho r w,
+  delete (Comp CDict fo xo cho) = false ->
+  on_merge als (S fuel) p (Comp CDict fs xs chs) (Comp CDict fo xo cho) = Ok (r, w) ->
+  exists f' ch', r = Comp CDict f' xs ch' /\
+    forall k, ahas k ch' = true -> ahas k chs = true \/ exists v, In (k, v) cho /\ require_all_new v (p ++ [k]) [] true = true.
+Proof. exact merge_no_new_key_without_permission. Qed.
+Print Assumptions C08_no_new_key_without_permission.
+
+Theorem C08_permission_covers_every_node : forall n p, require_all_new n p [] true = true ->
+  forall q m, In (q, m) (nwp p n) -> allow_new (nflags m) = true.
+Proof. exact require_all_new_nodes. Qed.
+Print Assumptions C08_permission_covers_every_node.
+
 (* non-vacuity: an overlay that changes a nested scalar and shrinks a list is accepted; one that adds a key two levels down,
    one that makes a list longer and one that turns a scalar into a non-empty mapping are MergeErrors *)
 Example C08_notnew_example :
